@@ -121,3 +121,68 @@ macro_rules! h_delta { ($name:ident, $unw:expr, $body:expr) => {
     #[kani::unwind($unw)]
     fn $name() { $body }
 }}
+
+// ---------------------------------------------------------------------------------------------
+// C08: delta round-trip through the real DeltaSerializer / Delta::serialize / Delta::deserialize, and against an
+// independent reference of the documented layout (hand-assembled bytes below share no code with serialize.rs).
+fn set_codec(raw: bool) { crate::vstd::zstd::set_codec(if raw { crate::vstd::zstd::Codec::AlwaysFail } else { crate::vstd::zstd::Codec::Identity }); }
+
+/// reference encoder of one member section, documented layout, little endian:
+/// Node op: 0x00, id{u16 len, bytes}, generation u64, addr{0x04, 4 octets, port u16}, last_gc u64, from u64
+/// KeyValue op: 0x01, key{u16 len, bytes}, value{u16 len, bytes}, version u64, status u8; SetMaxVersion op: 0x02, u64
+fn ref_push_u64(v: &mut Vec<u8>, x: u64) { let b = x.to_le_bytes(); let mut i = 0; while i < 8 { v.push(b[i]); i += 1; } }
+fn ref_ops(generation: u64, octets: [u8; 4], port: u16, gc: u64, from: u64, shape: u8, v1: u64, s1: u8, v2: u64, s2: u8, maxv: u64) -> Vec<u8> {
+    let mut v: Vec<u8> = Vec::with_capacity(96);
+    v.push(0); v.push(1); v.push(0); v.push(b'x'); ref_push_u64(&mut v, generation);
+    v.push(4); v.push(octets[0]); v.push(octets[1]); v.push(octets[2]); v.push(octets[3]); v.push(port as u8); v.push((port >> 8) as u8);
+    ref_push_u64(&mut v, gc); ref_push_u64(&mut v, from);
+    if shape >= 1 && shape <= 2 { v.push(1); v.push(1); v.push(0); v.push(b'a'); v.push(0); v.push(0); ref_push_u64(&mut v, v1); v.push(s1); }
+    if shape == 2 { v.push(1); v.push(1); v.push(0); v.push(b'b'); v.push(1); v.push(0); v.push(b'v'); ref_push_u64(&mut v, v2); v.push(s2); }
+    if shape == 3 { v.push(2); ref_push_u64(&mut v, maxv); }
+    v
+}
+/// shape 0: header only; 1: one key-value; 2: two key-values; 3: SetMaxVersion tail
+fn delta_roundtrip(shape: u8, raw: bool) {
+    set_codec(raw);
+    let generation: u64 = kani::any(); let octets: [u8; 4] = kani::any(); let port: u16 = kani::any();
+    let id = ChitchatId::new("x".to_string(), generation, std::net::SocketAddr::new(std::net::IpAddr::V4(std::net::Ipv4Addr::from(octets)), port));
+    let (gc, from): (u64, u64) = (kani::any(), kani::any());
+    let (v1, v2, maxv): (u64, u64, u64) = (kani::any(), kani::any(), kani::any());
+    let (s1, s2): (u8, u8) = (kani::any(), kani::any());
+    kani::assume(s1 < 3 && s2 < 3 && v1 < v2 && maxv > 0);
+    let mut ser = DeltaSerializer::with_mtu(60_000);
+    assert!(ser.try_add_node(id.clone(), gc, from));
+    let st = |c: u8| -> crate::types::DeletionStatus { DeletionStatusMutation::try_from(c).unwrap().into_status(crate::vstd::time::Instant { secs: 0, nanos: 0 }) };
+    if shape >= 1 && shape <= 2 { assert!(ser.try_add_kv("a", VersionedValue { value: String::new(), version: v1, status: st(s1) })); }
+    if shape == 2 { assert!(ser.try_add_kv("b", VersionedValue { value: "v".to_string(), version: v2, status: st(s2) })); }
+    if shape == 3 { assert!(ser.try_set_max_version(maxv)); }
+    let delta = ser.finish();
+    let mut bytes: Vec<u8> = Vec::with_capacity(128);
+    delta.serialize(&mut bytes);            // asserts payload.len() == serialized_len internally (delta.rs:227)
+    assert!(bytes.len() == delta.serialized_len(), "C08: Delta announces a length different from the bytes written");
+    // (a) real encoder -> reference layout (single block; raw blocks are the documented plain layout)
+    let ops = ref_ops(generation, octets, port, gc, from, shape, v1, s1, v2, s2, maxv);
+    assert!(bytes.len() == ops.len() + 4, "C08: encoded delta length differs from the documented layout (block tag, u16 length, ops, end tag)");
+    assert!(bytes[0] == if raw { 2 } else { 1 } && (bytes[1] as usize | ((bytes[2] as usize) << 8)) == ops.len() && bytes[bytes.len() - 1] == 0, "C08: block framing differs from the documented layout");
+    let mut i = 0;
+    while i < 96 { if i < ops.len() { assert!(bytes[3 + i] == ops[i], "C08: op stream bytes differ from the documented layout"); } i += 1; }
+    // (b) real decoder on the real bytes
+    let mut cur: &[u8] = &bytes[..];
+    let back = Delta::deserialize(&mut cur);
+    assert!(back.is_ok(), "C08: an emitted delta does not decode");
+    assert!(cur.is_empty(), "C08: decoding did not consume exactly all bytes");
+    let back = back.unwrap();
+    assert!(back.serialized_len() == bytes.len(), "C08: decoded delta records a wrong serialized length");
+    assert!(back.node_deltas.len() == 1, "C08: member sections changed in the round-trip");
+    let nd = &back.node_deltas[0];
+    assert!(nd.chitchat_id == id && nd.last_gc_version == gc && nd.from_version_excluded == from, "C08: member header changed in the round-trip");
+    let n_kv = if shape == 1 { 1 } else if shape == 2 { 2 } else { 0 };
+    assert!(nd.key_values.len() == n_kv, "C08: number of key-values changed in the round-trip");
+    if n_kv >= 1 { assert!(nd.key_values[0].key == "a" && nd.key_values[0].value.is_empty() && nd.key_values[0].version == v1 && nd.key_values[0].status as u8 == s1, "C08: key-value changed in the round-trip"); }
+    if n_kv == 2 { assert!(nd.key_values[1].key == "b" && nd.key_values[1].value == "v" && nd.key_values[1].version == v2 && nd.key_values[1].status as u8 == s2, "C08: second key-value changed in the round-trip"); }
+    assert!(nd.max_version == if shape == 3 { maxv } else if n_kv == 2 { v2 } else if n_kv == 1 { v1 } else { 0 }, "C08: section max version changed in the round-trip");
+    std::mem::forget(back); std::mem::forget(bytes); std::mem::forget(delta); std::mem::forget(ops);
+}
+
+/// contract cut for message-level budget queries: a Delta whose announced length is any value within the budget
+pub(crate) fn delta_with_len(len: usize) -> Delta { let mut d = Delta::default(); d.serialized_len = len; d }
